@@ -401,7 +401,11 @@ Theorem open_db_spec : forall v fl bad s, InvC s -> In v (views s) ->
      (forall f, In f (exact_set (open_db v fl bad s)) -> In f (files (open_db v fl bad s))) /\
      (forall f, In f (files (open_db v fl bad s)) ->
         In f (exact_set (open_db v fl bad s)) \/
-        exists n, f = (FJournal, n) /\ journal (open_db v fl bad s) < n /\ v_next v < v_jnum v)).
+        exists n, f = (FJournal, n) /\ journal (open_db v fl bad s) < n /\ v_next v < v_jnum v) /\
+     (forall t c, tget (tb (open_db v fl bad s)) t = Some c -> c = CTab) /\
+     frozen (open_db v fl bad s) = None /\
+     residue (open_db v fl bad s) =
+       map (fun f => (f, RStray)) (filter (fun f => negb (is_live (open_db v fl bad s) f)) (files (open_db v fl bad s)))).
 Proof.
   intros v fl bad s H Hv.
   destruct (c_v s H v Hv) as [Wm Wt].
@@ -527,7 +531,14 @@ Proof.
   - rewrite Ev6. intros v0 [ <- |[]]. split; auto.
   - apply (o_t s6 H6).
   - reflexivity.
-  - intros _. unfold exact_set. cbn [tb journal man set_opened set_residue].
+  - intros _.
+    set (sf := set_opened true (set_residue (map (fun f => (f, RStray)) (filter (fun f => negb (is_live s6 f)) (files s6))) s6)).
+    assert (Hold : (forall f, In f (exact_set sf) -> In f (files sf)) /\
+                   (forall f, In f (files sf) -> In f (exact_set sf) \/
+                      exists n, f = (FJournal, n) /\ journal sf < n /\ v_next v < v_jnum v));
+      [|destruct Hold as [Ho1 Ho2]; split; [exact Ho1|]; split; [exact Ho2|];
+        split; [intros t c Hc; apply (Hcls6 t c Hc) | split; [apply (o_fz s6 H6) | reflexivity]]].
+    subst sf. unfold exact_set. cbn [tb journal man files set_opened set_residue].
     rewrite Em6, U3, T3, U1.
     assert (Ejs : jstate_of s5 = {| js_tabs := tabs_of (tb s5); js_manifest := v_man v4; js_journal := j; js_frozen := None |}).
     { unfold jstate_of. rewrite <- U5, Em6, T3, (o_fz s5 H5). reflexivity. }
